@@ -70,6 +70,16 @@ Proof. exact perm_parse_canonical. Qed.
 Theorem C35_import_stores_valid : forall t p, convert_perm t = Some p -> 1 <= p <= acl_perm_super.
 Proof. exact convert_perm_valid. Qed.
 
+(* Decisions follow the LAST installed table: after setUser(u, m) the cells of u are exactly those of m (a scope
+   that m no longer names is gone), the other users' cells are unchanged; the superuser's entry cannot be set.
+   (Import installs the given table as a whole: by definition of the model, tied by the install histories of the harness.) *)
+Theorem C35_set_user_cells : forall a u m u' s, u <> superuser a ->
+  cell (apply_install a (ISet u m)) u' s = if String.eqb u' u then lookup s m else cell a u' s.
+Proof. exact set_user_cells. Qed.
+
+Theorem C35_set_super_refused : forall a m, apply_install a (ISet (superuser a) m) = a.
+Proof. exact set_super_refused. Qed.
+
 (* non-vacuity *)
 Definition ex_acl : acl := mkACL "root"
   [ ("_default", [("_default", 1); ("design", 2)]);
